@@ -502,7 +502,17 @@ func (w *writer) service(depth int, head string, s *Service) {
 	if s.BasePath != "" {
 		w.line(depth+1, "basePath = "+q(s.BasePath))
 	}
+	w.serviceOptions(depth+1, s)
 	w.methods(depth+1, s.Methods)
+	w.line(depth, "}")
+}
+
+func (w *writer) serviceOptions(depth int, s *Service) {
+	if len(s.Audience) == 0 {
+		return
+	}
+	w.line(depth, "options {")
+	w.line(depth+1, "audience = "+strList(s.Audience))
 	w.line(depth, "}")
 }
 
@@ -574,6 +584,7 @@ func (w *writer) entity(depth int, e *Entity) {
 		if c.BasePath != "" {
 			w.line(depth+2, "basePath = "+q(c.BasePath))
 		}
+		w.serviceOptions(depth+2, c)
 		w.methods(depth+2, c.Methods)
 		w.line(depth+1, "}")
 	}
